@@ -44,6 +44,17 @@ impl Xmap {
     #[verifier::external_body] pub fn verif_iter_nth(&self, i: usize) -> (r: Option<(&Cell, &Cell)>)
         ensures r is Some <==> xmap_nth(*self, i as int) is Some, r is Some ==> (*(r->0).0, *(r->0).1) == xmap_nth(*self, i as int)->0 { unimplemented!() }
 }
+//@include preamble/xvec_iter.rs
+// ASSUMED std meaning of `iter().skip(a).take(n)` on an rpds vector: the elements [min(a,len), min(a+n,len)) in order
+#[verifier::external_body]
+fn verif_skip_take<'a>(v: &'a Xvec, a: usize, n: usize) -> (r: XvecIter<'a>)
+    ensures ({ let lo = if a <= v@.len() { a as int } else { v@.len() as int };
+               let hi = if a + n <= v@.len() { a + n } else { v@.len() as int };
+               r.rem().len() == hi - lo && forall|i: int| 0 <= i < hi - lo ==> *(#[trigger] r.rem()[i]) == v@[lo + i] })
+{ unimplemented!() }
+// ASSUMED: slice_str (chars().skip().take().collect(): string code outside the Verus subset)
+#[verifier::external_body] fn slice_str(s: &Xstr, start: isize, end: isize) -> String { unimplemented!() }
+impl From<String> for Cell { #[verifier::external_body] fn from(x: String) -> (r: Cell) ensures r is Str { unimplemented!() } }
 pub assume_specification [ <isize>::unsigned_abs ] (a: isize) -> (r: usize)
     ensures r == (if a < 0 { -(a as int) } else { a as int });
 
@@ -124,6 +135,9 @@ impl State {
 //@use coll.fns ::core_word_equal
 //@use coll.fns ::core_word_assert_eq
 //@use coll.fns ::core_word_is_nil
+//@use coll.fns ::slice_vec
+//@use coll.fns ::core_word_slice
+//@use coll.fns ::core_word_unbox
 //@use coll.fns ::core_word_counter_i
 //@use coll.fns ::core_word_counter_j
 //@use coll.fns ::core_word_counter_k
